@@ -59,10 +59,11 @@ fn value_of(setting: &str, src: usize, ports: &[u16; 3], bools: u8) -> String {
         "port" => ports[src].to_string(),
         "thread_count" => ["3", "5", "7"][src].to_string(),
         "allow_all" | "allow_credentials" => b(src).to_string(),
-        "allow_origins" => ["https://env.example,https://env2.example", "https://file.example,https://file2.example", "https://cli.example"][src].to_string(),
+        // values carry the characters that mean something to one of the three readers ('_' and '-' of key normalisation, upper case, '.', ':', '/', '+', '~', '*')
+        "allow_origins" => ["https://env_host.example,https://env2.example", "https://file_host.example:8443,https://File2.example", "https://cli_host.example"][src].to_string(),
         "allow_methods" => ["GET", "POST,PUT", "DELETE,PATCH"][src].to_string(),
-        "allow_headers" => ["x-env", "x-file,content-type", "x-cli"][src].to_string(),
-        "expose_headers" => ["x-exp-env", "x-exp-file,etag", "x-exp-cli"][src].to_string(),
+        "allow_headers" => ["x_env-h", "x_file-h,Content-Type", "x_cli-h~1"][src].to_string(),
+        "expose_headers" => ["x-exp_env", "X-Exp_File,etag", "x-exp_cli+1"][src].to_string(),
         "max_age" => ["11", "22", "33"][src].to_string(),
         _ => ["5001", "6002", "7003"][src].to_string(),
     }
@@ -182,7 +183,9 @@ fn eval_in(ctx: &Ctx, c: &Case, docroot: &std::path::Path) -> Verdict {
     if !allow_all {
         classes.push("cors-observable");
         let want_origins: Vec<String> = exp("allow_origins").split(',').filter(|s| !s.is_empty()).map(|s| s.to_string()).collect();
-        let candidates = ["https://env.example", "https://env2.example", "https://file.example", "https://file2.example", "https://cli.example"];
+        let candidates = ["https://env_host.example", "https://env2.example", "https://file_host.example:8443", "https://File2.example", "https://cli_host.example",
+            // look-alikes that must never be granted: '_' read as '-', other letter case, without the port
+            "https://file-host.example:8443", "https://env-host.example", "https://cli-host.example", "https://file2.example", "https://file_host.example"];
         let mut granted = vec![];
         for cand in candidates { if let Some(r) = probe(cand, "GET") { if r.get("Access-Control-Allow-Origin") == Some(cand) { granted.push(cand.to_string()); } } }
         let mut w = want_origins.clone(); w.sort(); granted.sort();
